@@ -159,6 +159,7 @@ pub struct World {
     pub last_refetch: Seq<EventId>,         // ids returned by find_failed_messages_for_retry
     pub notified: Option<RollbackNote>,
     pub exported_for: Seq<(GroupId, u64)>,  // exporter_secret exports performed (group, epoch)
+    pub secret_lookups: Seq<(GroupId, u64)>, // every get_group_exporter_secret(group, epoch) query, in order
 }
 pub struct RollbackNote { pub group: GroupId, pub target_epoch: u64, pub new_head: EventId, pub invalidated: Seq<EventId>, pub refetch: Seq<EventId> }
 
@@ -199,7 +200,7 @@ pub trait MdkStorageProvider {
         ensures r is Ok ==> *final(w) == (World { relays: old(w).relays.insert(*group_id, relays), ..*old(w) }),
                 r is Err ==> *final(w) == *old(w);
     fn get_group_exporter_secret(&self, group_id: &GroupId, epoch: u64, Tracked(w): Tracked<&mut World>) -> (r: Result<Option<GroupExporterSecret>, GroupError>)
-        ensures *final(w) == *old(w),
+        ensures *final(w) == (World { secret_lookups: old(w).secret_lookups.push((*group_id, epoch)), ..*old(w) }),
                 r is Ok ==> r->Ok_0 == (if old(w).exporter_secrets.contains_key((*group_id, epoch)) { Some(old(w).exporter_secrets[(*group_id, epoch)]) } else { None::<GroupExporterSecret> }),
                 // primary key: the record stored under (group, epoch) carries that key
                 r is Ok && r->Ok_0 is Some ==> r->Ok_0->Some_0.mls_group_id == *group_id && r->Ok_0->Some_0.epoch == epoch;
@@ -469,6 +470,17 @@ impl vstd::std_specs::convert::TryFromSpecImpl<ExportedBytes> for [u8; 32] {
     open spec fn try_from_spec(b: ExportedBytes) -> Result<[u8; 32], ExportedBytesErr> {
         if b.v@.len() == 32 { Ok(arr32(b.v@)) } else { Err(ExportedBytesErr {}) }
     }
+}
+
+// crate::util::decrypt_with_exporter_secret: NIP-44 decryption under the exporter secret (uninterpreted)
+pub mod util {
+    use super::*;
+    pub uninterp spec fn nip44_ok(s: GroupExporterSecret, c: Seq<char>) -> bool;
+    pub uninterp spec fn nip44_plain(s: GroupExporterSecret, c: Seq<char>) -> Seq<u8>;
+    #[verifier::external_body]
+    pub fn decrypt_with_exporter_secret(secret: &GroupExporterSecret, encrypted_content: &str) -> (r: Result<Vec<u8>, Error>)
+        ensures (r is Ok) == nip44_ok(*secret, encrypted_content@), r is Ok ==> r->Ok_0@ == nip44_plain(*secret, encrypted_content@)
+    { unimplemented!() }
 }
 
 // =====================================================================================
